@@ -324,12 +324,15 @@ class PythonToIrCompiler:
         i_phi.set_incoming(entry_block, i_init)
         self.emit(ir.CJump(i_phi, "<", n2, body_block, final_block))
 
-        # Publish looping variable:
-        self.local_map[statement.target.id] = Var(i_phi, False, ir.i64)
-
         # Body, continue proceeds with the next value:
         self.enter_loop(step_block, final_block)
         self.builder.set_block(body_block)
+
+        # Publish looping variable, it is an ordinary variable which keeps
+        # its last value after the loop:
+        if not isinstance(statement.target, ast.Name):
+            self.error(statement.target, "Only a name can be loop variable")
+        self.store_value(statement.target, i_phi)
         self.gen_statement(statement.body)
         self.leave_loop()
         self.builder.emit_jump(step_block)
